@@ -454,7 +454,7 @@ func verifC08RunC08(t *testing.T, pkg string, decs []verifC08Decoder, declared f
 				kindTime["base:"+c.base] += el
 				kindN[c.kind]++
 				kindN["base:"+c.base]++
-				if el > 500*time.Millisecond {
+				if el > 150*time.Millisecond {
 					fmt.Printf("VERIF-C08-SLOW %s %s\n", el, c.String())
 				}
 			}
